@@ -140,6 +140,87 @@ def oracle(case: dict) -> Outcome:
     return out
 
 
+def strategy_ddp():
+    from hypothesis import strategies as st
+
+    @st.composite
+    def case(draw: Any) -> dict:
+        c = draw(strategy())
+        c["comm_dtype"] = draw(st.sampled_from(["bf16", "fp16", "default", "bf16"]))
+        c["comm_params"] = draw(st.booleans())
+        c["dyn"] = "static"
+        return c
+
+    return case()
+
+
+def oracle_ddp(case: dict) -> Outcome:
+    """The same differential with the DDP distributor in the loop (single-rank world on the simulator): update_params is part of the compiled group step."""
+    import torch._dynamo
+    from torch._dynamo.utils import counters
+
+    from distributed_shampoo.shampoo_types import DDPShampooConfig, ShampooPT2CompileConfig
+
+    from .. import dist_common as dc, sim
+
+    out = Outcome()
+    res: dict = {}
+
+    def fn(rank: int, world: Any) -> None:
+        torch._dynamo.reset()
+        counters.clear()
+        mk = lambda: DDPShampooConfig(communication_dtype=dc.comm_enum(case["comm_dtype"]), num_trainers_per_group=-1, communicate_params=case["comm_params"])  # noqa: E731
+        pt2 = ShampooPT2CompileConfig(pytorch_compile_backend=case["backend"], enable_shampoo_pt2_dynamic_shape=False)
+        A = history.OptRunner(case["config"], check_reference=False, extra={"shampoo_pt2_compile_config": pt2, "distributed_config": mk()})
+        B = history.OptRunner(case["config"], check_reference=False, extra={"distributed_config": mk()})
+        if A.failed_construct or B.failed_construct:
+            res["construct"] = A.failed_construct or B.failed_construct
+            return
+        diffs = []
+        for si, s in enumerate(case["steps"]):
+            if not any(s["mask"]):
+                continue  # a rank without any gradient skips the group consistently; nothing to compare
+            ea, eb = A.raw_step(s), B.raw_step(s)
+            if ea is not None or eb is not None:
+                res["raise"] = (si, repr(ea)[:300], repr(eb)[:300], type(ea).__name__, type(eb).__name__)
+                break
+            for pi, (pa, pb) in enumerate(zip(A.all_params(), B.all_params())):
+                a, b = pa.detach().double(), pb.detach().double()
+                dev = float((a - b).norm())
+                scale = float(a.norm() + b.norm())
+                diffs.append((si, pi, dev, scale))
+        res["diffs"] = diffs
+        res["frames"] = counters["frames"].get("ok", 0)
+        torch._dynamo.reset()
+
+    results, errors, alive, world = sim.run_world(1, fn)
+    real = {r: e for r, e in errors.items() if e != "abort"}
+    if real:
+        out.fail("C18.ddp.raises", "DDP compiled-vs-eager world raised " + list(real.values())[0].split("\n")[0], list(real.values())[0][-1500:])
+        return out
+    if "construct" in res:
+        out.failures.append(res["construct"])
+        return out
+    if "raise" in res:
+        si, ea, eb, ta, tb = res["raise"]
+        if ta == "BackendCompilerFailed" and tb == "NoneType" and ("share the same storage" in ea or "SymInt" in ea):
+            out.classes.append("compiler_rejected_aliased_dynamic_graph")
+            out.excluded += 1
+        elif ta != tb:
+            out.fail("C18.raises", "compiled and eager optimizers differ in raising", f"step {si + 1}: compiled={ea} eager={eb}")
+        return out
+    tol = 1e-3  # a stale or skipped update is O(lr * direction); single-ulp aot_eager differences amplified by conditioning stay far below
+    for (si, pi, dev, scale) in res.get("diffs", []):
+        if dev > tol * scale + 1e-12:
+            out.fail("C18.params", "compiled step leaves different parameters than the eager step",
+                     f"DDP distributor, communication dtype {case['comm_dtype']}, communicate_params={case['comm_params']}: step {si + 1} param {pi} rel diff {dev / (scale + 1e-300):.3e}")
+            return out
+    out.nontrivial = res.get("frames", 0) >= 1 and case["comm_dtype"] != "default"
+    out.classes += [f"comm_{case['comm_dtype']}", "communicate_params" if case["comm_params"] else "communicate_updates", f"backend_{case['backend']}"]
+    return out
+
+
 STREAMS = {
     "compiled_vs_eager": Stream("compiled_vs_eager", oracle=oracle, strategy=strategy, quick=64, thorough=1500, shards_quick=16, shards_thorough=16),
+    "ddp_compiled": Stream("ddp_compiled", oracle=oracle_ddp, strategy=strategy_ddp, quick=32, thorough=600, shards_quick=16, shards_thorough=16),
 }
